@@ -402,6 +402,30 @@ def run(ctx):
     nd = check_logger_guards(ctx, vdb, 'no-NDEBUG', files={'src/' + u.split('/src/')[-1] for u in du}, only=reach)
     ctx.require('R-NULL.logger log sites (debug configuration)', nd, 3)
 
+    from . import C17   # payloads are not NUL-terminated; buffers hold the longest record (shared with C17)
+    C17.check_payload_strings(ctx, db)
+    C17.check_record_buffers(ctx, db)
+
+    # R-PAIR.dangling: a released pointer is not read again (returned, passed on, dereferenced, released twice)
+    reach_all = set()
+    work = [fns[q] for q in READERS]
+    while work:
+        f_ = work.pop()
+        if f_.qn in reach_all:
+            continue
+        reach_all.add(f_.qn)
+        for c_ in f_.walk():
+            if c_.k in ('CallExpr', 'CXXMemberCallExpr', 'CXXOperatorCallExpr') and (c_.callee or '').startswith('gdstk::'):
+                for g_ in db.fn(c_.callee, all=True, required=False) or []:
+                    if g_.body is not None and g_.qn not in reach_all:
+                        work.append(g_)
+    ndg = 0
+    for qn in sorted(reach_all):
+        for f_ in db.fn(qn, all=True, required=False) or []:
+            if f_.body is not None:
+                ndg += flow.check_dangling(ctx, f_)
+    ctx.require('R-PAIR.dangling release sites', ndg, 8)
+
     # positive controls: the same rules must fire on seeded miniatures
     cdb = load_controls()
     for name, rule_fn, expect in (
@@ -409,6 +433,7 @@ def run(ctx):
         ('ctl_loop_no_progress', lambda c, f: flow.check_loops(c, f, flow.build_summaries(cdb)), 'R-LOOP'),
         ('ctl_null_to_memcmp', lambda c, f: flow.check_nullable_uses(c, f, flow.nullable_functions(cdb)), 'R-NULL'),
         ('ctl_unbounded_copy', lambda c, f: flow.check_bounded_copies(c, f, cdb), 'R-BOUND'),
+        ('ctl_dangling', lambda c, f: flow.check_dangling(c, f), 'R-PAIR.dangling'),
     ):
         f = cdb.fn('controls::' + name)
         sub = ctx.sub(cdb)
@@ -423,7 +448,7 @@ XREF_FILES = ["src/library.cpp", "src/rawcell.cpp", "src/gdsii.cpp", "src/oasis.
 
 
 MANIFEST = dict(
-   text='Decides, for every CFG path of the eight file readers, the structural necessary conditions of crash/leak/false-success freedom: no exit edge carries an open FILE* (R-PAIR, incl. the ref-counted RawSource idiom and its guard), every loop makes progress on every path (R-LOOP), nullable results are tested before use (R-NULL), success returns are dominated by the ENDLIB arm and error exits return an empty value and set the error code (R-MUSTPASS), every gdsii_read_record result is checked and its short-read tests compare the fread result with the requested count (R-ERRCHK, linear normalisation), copies into fixed-size objects are bounded (R-BOUND); every stdio call on the (nullable) error logger reachable from the readers is under a test of the pointer, in the release configuration and - for the units that use the debug-only logging macros - in the default configuration without NDEBUG (R-NULL.logger). All paths / all exits, no input bound. Does not decide absence of every memory error for every byte pattern, nor checksum coincidences.',
+   text='Decides, for every CFG path of the eight file readers, the structural necessary conditions of crash/leak/false-success freedom: no exit edge carries an open FILE* (R-PAIR, incl. the ref-counted RawSource idiom and its guard), every loop makes progress on every path (R-LOOP), nullable results are tested before use (R-NULL), success returns are dominated by the ENDLIB arm and error exits return an empty value and set the error code (R-MUSTPASS), every gdsii_read_record result is checked and its short-read tests compare the fread result with the requested count (R-ERRCHK, linear normalisation), copies into fixed-size objects are bounded (R-BOUND); a released buffer is never read again - returned, passed on, released twice - before being reassigned, in any function reachable from the readers (R-PAIR.dangling); record payloads, which are not NUL-terminated, only reach length-taking callees and the record buffers hold the longest record (R-BOUND.cstring, R-CONST, shared with C17); every stdio call on the (nullable) error logger reachable from the readers is under a test of the pointer, in the release configuration and - for the units that use the debug-only logging macros - in the default configuration without NDEBUG (R-NULL.logger). All paths / all exits, no input bound. Does not decide absence of every memory error for every byte pattern, nor checksum coincidences.',
    note='Trusted: clang 14 front end and clang::CFG, tools/gx/gx.cc, sa/*.py; libc model (fopen may return NULL, fclose releases, fread returns item count); callee summaries only for functions under /repo. Path-insensitive joins only add states, so a pass covers all feasible paths.',
    technique='custom typestate / dominance / loop-progress dataflow over the clang CFG (libTooling extractor + Python rules)',
    design='§4 C18')
